@@ -111,7 +111,7 @@ theorem refines_all : ∀ t : Ty, Refines t := by
         match e, hte with
         | .list [a, b], hte =>
           simp only [Bool.and_eq_true] at hte
-          simp only [Tr.andThen_toSpec, iha a hte.1, ihb b hte.2]
+          simp only [serEntry, Tr.andThen_toSpec, iha a hte.1, ihb b hte.2]
   case h_array =>
     intro n t ih v hv
     match v, hv with
